@@ -265,7 +265,7 @@ func c05RealTrial(c *core.Ctx, idx int, self string, cs c05RealCase) {
 	if !ended {
 		k := "real-hang|" + key
 		if cs.Step == "ignore-term" {
-			k = "no-sigkill:real|" + cs.Stop // the open finding of the scripted pass, seen with a real process
+			k = "no-sigkill:real|" + cs.Stop // the scripted pass's no-sigkill finding (repaired by 029c9ee), seen with a real process
 		}
 		c.Violate(idx, k, fmt.Sprintf("45 s after the %s the run has not ended (maxCleanUpTimeSec 1): %v", cs.Stop, lines), desc)
 		return
